@@ -652,10 +652,36 @@ Section WithCalls.
     (fix go (seen t : str) : str :=
        match t with [] => [] | c :: r => if mem c seen then go seen r else c :: go (c :: seen) r end) [] t.
 
+  (* a stable insertion sort by a "less or equal" test (Python's sorted on one kind of scalars) *)
+  Fixpoint insert_le {A} (le : A -> A -> bool) (x : A) (l : list A) : list A :=
+    match l with
+    | [] => [x]
+    | y :: r => if le y x then y :: insert_le le x r else x :: l
+    end.
+  Definition isort {A} (le : A -> A -> bool) (l : list A) : list A := fold_left (fun acc x => insert_le le x acc) l [].
+
+  Definition all_strs (l : list value) : option (list str) :=
+    mapM (fun v => match v with VStr t => Some t | _ => None end) l.
+
+  Fixpoint every_other {A} (l : list A) : list A :=
+    match l with
+    | [] => []
+    | x :: r => x :: match r with [] => [] | _ :: r' => every_other r' end
+    end.
+
+  Fixpoint interleave_l {A} (la lb : list A) : list A :=
+    match la with
+    | [] => lb
+    | x :: ra => x :: match lb with [] => ra | y :: rb => y :: interleave_l ra rb end
+    end.
+
+  Definition vstr (v : value) : option str := match v with VStr t => Some t | _ => repr v end.
+
   Definition more_keys : str :=
     [8320; 8321; 8324; 8326; 8327; 8328; 164; 240; 182; 117; 8222; 8223; 558; 7682; 8743; 8744; 10193;
      8804; 8805; 8800; 8976; 8759; 8322; 551; 178; 37; 71; 103; 8756; 8757; 7715; 7787; 7714; 7786;
-     638; 640; 637; 641; 928; 109; 8734; 112; 97; 65; 267; 8776; 122; 90; 85; 83]%N.
+     638; 640; 637; 641; 928; 109; 8734; 112; 97; 65; 267; 8776; 122; 90; 85; 83;
+     380; 7823; 89; 121; 115; 7819; 106]%N.
 
   Definition elem_more (k : N) (s : state) : xres state :=
     if (k =? 8320)%N then XOk (push (VInt 10) s)                                           (* ₀ *)
@@ -827,6 +853,52 @@ Section WithCalls.
                      | VList _ => option_map VStr (repr a)
                      | VFun _ => None
                      end) s
+    else if (k =? 380)%N then                                                              (* ż range(1, len(iterable(lhs)) + 1) *)
+        un (fun a => match iter_digits a with Some l => zrange 1 (Z.of_nat (length l) + 1) | None => None end) s
+    else if (k =? 7823)%N then                                                             (* ẏ range(0, len(iterable(lhs))) *)
+        un (fun a => match iter_digits a with Some l => zrange 0 (Z.of_nat (length l)) | None => None end) s
+    else if (k =? 89)%N then                                                               (* Y interleave *)
+        bin (fun a b => match a, b with
+                        | VStr s1, VStr s2 => Some (VStr (interleave_l s1 s2))
+                        | _, _ => match iter_digits a, iter_digits b with
+                                  | Some la, Some lb => Some (VList (interleave_l la lb))
+                                  | _, _ => None
+                                  end
+                        end) s
+    else if (k =? 121)%N then                                                              (* y a[::2], a[1::2] *)
+        un2 (fun a => match a with
+                      | VStr t => Some (VStr (every_other t), VStr (every_other (tl t)))
+                      | _ => match iter_digits a with
+                             | Some l => Some (VList (every_other l), VList (every_other (tl l)))
+                             | None => None
+                             end
+                      end) s
+    else if (k =? 115)%N then                                                              (* s sorted: one kind of scalars *)
+        un (fun a => match a with
+                     | VStr t => Some (VStr (isort N.leb t))
+                     | VList l => match all_ints l, all_strs l with
+                                  | Some zs, _ => Some (VList (map VInt (isort Z.leb zs)))
+                                  | None, Some ss => Some (VList (map VStr (isort (fun x y => negb (str_ltb y x)) ss)))
+                                  | None, None => None
+                                  end
+                     | _ => None
+                     end) s
+    else if (k =? 7819)%N then                                                             (* ẋ repeat *)
+        bin (fun a b => match a, b with
+                        | VFun _, _ | _, VFun _ => None
+                        | VStr t, VInt n => option_map VStr (repeat_str t (Z.abs n))
+                        | VInt n, VStr t => option_map VStr (repeat_str t (Z.abs n))
+                        | VStr t, VStr u => Some (VStr (t ++ u))
+                        | VInt n, _ => if Z.abs n >? 5000 then None else Some (VList (repeat b (Z.to_nat (Z.abs n))))
+                        | _, VInt n => if Z.abs n >? 5000 then None else Some (VList (repeat a (Z.to_nat (Z.abs n))))
+                        | _, _ => None
+                        end) s
+    else if (k =? 106)%N then                                                              (* j vy_str(rhs).join(map(vy_str, iterable(lhs))) *)
+        bin (fun a b => match vstr b, iter_digits a with
+                        | Some sep, Some items =>
+                            option_map (fun parts => VStr (join_with sep parts)) (mapM vstr items)
+                        | _, _ => None
+                        end) s
     else XErr ENotCore.
 
   (* ---- the element table of the core (key = code point of the one-character element) ------------- *)
